@@ -32,6 +32,11 @@ REQUIRED_CLASSES = ["nontrivial", "inside", "above", "below", "on_upper", "on_lo
 QUICK_SHARDS = 4
 
 plot_utils = sut.load("plot_utils")
+OPTION_PROBES = [(plot_utils.checkLimits, ["value", "lower_bound", "upper_bound"], [-5.0, 0.0, 300.0]),
+                 (plot_utils.checkLimitsTol, ["value", "lower_bound", "upper_bound", "tolerance"], [-5.0, 0.0, 300.0, 1e-9]),
+                 (plot_utils.constrainLimits, ["value", "lower_bound", "upper_bound"], [-5.0, 0.0, 300.0]),
+                 (plot_utils.point_in_bounds, ["point", "bounds", "tolerance"], [[1.0, 2.0], [[0.0, 0.0], [5.0, 5.0]]])]
+
 
 
 def ulp(x):
